@@ -63,7 +63,17 @@ def main():
         out.append(res)
         print(res, flush=True)
     print("\n%d/%d seeded changes caught" % (sum(1 for r in out if r.get("caught")), len(out)))
-    json.dump(out, open("/verif/seeded/results.json", "w"), indent=1)
+    # merge into the cumulative results file (confirmation fields survive --skip-confirm runs)
+    path = "/verif/seeded/results.json"
+    try:
+        old = {r["id"]: r for r in json.load(open(path))}
+    except Exception:
+        old = {}
+    for r in out:
+        merged = dict(old.get(r["id"], {}))
+        merged.update(r)
+        old[r["id"]] = merged
+    json.dump([old[k] for k in sorted(old)], open(path, "w"), indent=1)
 
 if __name__ == "__main__":
     main()
